@@ -129,6 +129,10 @@ def run_single(case):
     except (NetworkTopologyError, ParametersError) as exc:
         return {'status': 'rejected', 'tags': {'fibre-rejected': 1}}
     cb = COMBS[fc['comb']]
+    # the fibre object first carries another comb of the same size at other frequencies (a fibre is crossed many times)
+    warm = dict(cb, f=[191.35e12 + 196.05e12 - x for x in cb['f']][::-1], baud=cb['baud'][::-1], slot=cb['slot'][::-1],
+                p=[x - 2.0 for x in cb['p']][::-1])
+    fib(make_si(warm))
     si = make_si(cb)
     pre = c.snap(si)
     out = fib(si)
